@@ -726,7 +726,16 @@ func TestRandomScripts(t *testing.T) {
 				for k := rapid.IntRange(1, 6).Draw(rt, "nres"); k > 0; k-- {
 					res.Set(rapid.IntRange(1, 55).Draw(rt, "resbit"))
 				}
-				s.R2[i] = rc.P{Cap: &rc.Capability{Masks: []rc.CapMask{req, res}}}
+				masks := []rc.CapMask{req, res}
+				switch rapid.IntRange(0, 3).Draw(rt, "sectype") {
+				case 0: // a further capability type the client did not ask about, nothing in it
+					masks = append(masks, rc.CapMask{Type: 3, Mask: []byte{}})
+				case 1: // ... with something in it
+					sec := rc.CapMask{Type: 3, Mask: make([]byte, 2)}
+					sec.Set(rapid.IntRange(1, 15).Draw(rt, "secbit"))
+					masks = append(masks, sec)
+				}
+				s.R2[i] = rc.P{Cap: &rc.Capability{Masks: masks}}
 			}
 		}
 		cfg := baseCfg(plain)
